@@ -68,6 +68,7 @@ func cmdVerify(args []string) {
 	modelAll := fs.Bool("modelall", false, "with -model: also for undecided obligations (candidate model of the instantiated problem)")
 	onlyObl := fs.String("obl", "", "only solve obligations whose name contains this")
 	as := fs.String("as", "", "verify against interface contract (e.g. github.com/philpearl/avro.Codec.Read)")
+	view := fs.String("view", "", "verify against the named implementation view of the function")
 	fs.Parse(args)
 	t0 := time.Now()
 	e, err := NewEngine(*repo, "/verif/spec")
@@ -87,7 +88,21 @@ func cmdVerify(args []string) {
 			continue
 		}
 		c := e.contractFor(fn)
-		res := e.VerifyFunctionAs(fn, c, *panics, nil, *as)
+		asKey := *as
+		if *view != "" {
+			c = nil
+			for _, v := range e.specs.Views {
+				if v.ViewName == *view && e.lookupFunc(v.Pkg, v.Key) == fn {
+					c = v
+				}
+			}
+			if c == nil {
+				fmt.Printf("no view %s of %s\n", *view, key)
+				continue
+			}
+			asKey = "view:" + *view
+		}
+		res := e.VerifyFunctionAs(fn, c, *panics, nil, asKey)
 		if *onlyObl != "" {
 			var keepO []*Obligation
 			for _, o := range res.Obls {
